@@ -61,3 +61,16 @@ Example C14_examples :
   mult_dec 214 (-1) 1 (-1) = [] /\ mult_dec 411 (-2) 1 (-1) = [KMultipleOf] /\
   mult_dec 21399999999999995 (-15) 1 (-1) = [KMultipleOf] /\ mag_lt 214 (-1) 9 /\ one_frac 214 (-1) = true.
 Proof. vm_compute. repeat split; try reflexivity. Qed.
+
+(* ---------------------------------------------------------------------------------------------
+   The Decimal path itself.  Validate.retag is the model's one-line account of
+     json.loads(json.dumps(payload, default=_decimal_as_float), parse_float=Decimal, parse_constant=Decimal);
+   at the text level (JsonText.print_compact, JsonParse.loads_mode FDecimal) that round trip is proved to be
+   retag: every float comes back as the Decimal with exactly the digits of its repr. *)
+From OV.Model Require Import JsonText JsonParse JsonRoundTrip RetagProofs.
+
+Theorem C14_decimal_path_is_retag :
+  forall limit v, wf FFloat v -> (depth v <= limit)%nat ->
+                  loads_mode FDecimal limit (print_compact v) = LValue (retag v).
+Proof. exact retag_is_dumps_loads. Qed.
+Print Assumptions C14_decimal_path_is_retag.
